@@ -75,7 +75,7 @@ type SpecGen struct {
 	DevNames      []string // device names (default: 1..4 generated names)
 	NoSpecEdits   bool     // never generate spec-level edits
 	Plain         bool     // only env/mount/hook edits (no host lookups, no version-gated features)
-	HostNodes     []string // existing host device nodes usable for nodes without explicit type
+	HostNodes     []HostNode // existing host device nodes (types b/c/p) usable for nodes without explicit type
 	Version       string   // declared version ("" = random valid one)
 	Str           func(r *rand.Rand, field string) string // optional string source for free-text fields
 }
@@ -137,9 +137,18 @@ func genEdits(r *rand.Rand, g *SpecGen, marker string, nonEmpty bool) specs.Cont
 			for i := 0; i < n; i++ {
 				d := &specs.DeviceNode{Path: fmt.Sprintf("/dev/%s-%d", marker, i)}
 				switch {
-				case len(g.HostNodes) > 0 && chance(r, 50):
+				case len(g.HostNodes) > 0 && chance(r, 60):
 					// info to be taken from a host node
-					d.HostPath = g.HostNodes[r.Intn(len(g.HostNodes))]
+					h := g.HostNodes[r.Intn(len(g.HostNodes))]
+					switch r.Intn(4) {
+					case 0:
+						d.HostPath = h.Path
+					case 1:
+						d.HostPath, d.Type = h.Path, h.Type
+					default:
+						// the usual case: container path = host path, nothing else given
+						d.Path = h.Path
+					}
 				default:
 					d.Type = pickStr(r, "c", "b", "p", "c")
 					d.Major = int64(1 + r.Intn(250))
